@@ -249,27 +249,36 @@ func realLegs(tier string, seed uint64, realBin string, a *core.Agg) ([]*core.Vi
 
 		paths := append([]string(nil), all...)
 		sort.Strings(paths)
+		// 1. the real drivers among themselves: a disagreement is a C06 violation
 		for _, p := range paths {
-			// the reference among real drivers: the standalone binary
-			ref := j.standalone.PkgString(p)
+			ref := j.standalone.PkgString(p) // the reference among real drivers: the standalone binary
 			for _, o := range outs {
-				s := o.out.PkgString(p)
-				a.Inc("real.outcome_comparisons")
-				if s == ref {
+				if !o.real {
 					continue
 				}
-				if !o.real {
-					return nil, core.Infra("HARNESS BUG: stub driver %s disagrees with the real standalone binary on world %d, package %s:\n%s(world kept nowhere; rerun with the same VERIF_SEED)", o.name, j.i, p, firstDiff(ref, s))
+				a.Inc("real.outcome_comparisons")
+				if s := o.out.PkgString(p); s != ref {
+					viols = append(viols, realViolation(j.w, seed, j.i, p, "gogreement -json ./...", o.name, ref, s))
 				}
-				viols = append(viols, realViolation(j.w, seed, j.i, p, "gogreement -json ./...", o.name, ref, s))
 			}
 			if p == j.single {
 				for _, o := range []named{{"gogreement -json " + p + " (only this package named)", j.singleStandalone, true}, {"go vet -vettool=gogreement " + p + " (only this package named)", j.singleVet, true}} {
-					s := o.out.PkgString(p)
 					a.Inc("real.outcome_comparisons")
-					if s != ref {
+					if s := o.out.PkgString(p); s != ref {
 						viols = append(viols, realViolation(j.w, seed, j.i, p, "gogreement -json ./...", o.name, ref, s))
 					}
+				}
+			}
+		}
+		if len(viols) > 0 {
+			break
+		}
+		// 2. only when the real drivers agree: each stub against its real counterpart
+		for _, p := range paths {
+			for _, pair := range [][2]named{{outs[0], {"gogreement -json ./...", j.standalone, true}}, {outs[1], {"go vet -vettool=gogreement -json ./...", j.vet, true}}} {
+				a.Inc("real.stub_vs_real_comparisons")
+				if x, y := pair[0].out.PkgString(p), pair[1].out.PkgString(p); x != y {
+					return nil, core.Infra("HARNESS BUG: stub driver %s disagrees with its real counterpart %q on world %d, package %s (while all real drivers agree with each other):\n%s(rerun with the same VERIF_SEED to see it again)", pair[0].name, pair[1].name, j.i, p, firstDiff(y, x))
 				}
 			}
 		}
